@@ -209,6 +209,15 @@ func (g *gen) numLeaf(t *typ, allowLit bool, pos litPos) (string, bool, int) {
 
 // nonConstLeaf returns a non-constant operand of scalar type t, if one can be named here.
 func (g *gen) nonConstLeaf(t *typ) (string, bool) {
+	if t.k == kString && g.strSafe > 0 {
+		vs := g.visible(func(v *vr) bool { return v.t.k == kString && v.ro })
+		if len(vs) > 0 {
+			v := vs[g.pick(len(vs))]
+			v.used = true
+			return v.name, true
+		}
+		return "", false
+	}
 	order := g.r.Perm(8)
 	for _, c := range order {
 		switch c {
